@@ -183,6 +183,7 @@ PRECS = list(range(0, 21)) + [30, 60]
 
 
 class C17(Property):
+    fuzz_target = 'fuzz_float'
     id = 'C17'
     configs = ('A',)
     bytes_per_case = 96
